@@ -23,7 +23,7 @@ def strBytes (s : String) : Bytes := s.toUTF8.toList
 
 /-! ### runtime suite -/
 
-def rtDefs : Defs := ⟨[], [], [⟨.struct, "rt/Payload", "Payload", [⟨1, .default, "tag", .i64⟩, ⟨2, .default, "blob", .binary⟩]⟩]⟩
+def rtDefs : Defs := ⟨[], [], [⟨.struct, "rt/Payload", "Payload", [⟨1, .default, "tag", .i64, none⟩, ⟨2, .default, "blob", .binary, none⟩]⟩]⟩
 def rtCfg : SubCfg := ⟨rtDefs, 8, "Evt", .struct "rt/Payload"⟩
 def rtTopic : Topic := strBytes "t"
 
